@@ -387,7 +387,6 @@ pub fn ref_v9(b: &[u8], cache: &mut RefCache, q: &mut Q) -> Result<(CVar, usize)
                 }
                 CBody::OptTpl(ts, r.to_vec())
             }
-            2..=255 => return nc("reserved flowset id"),
             _ => match cache.v9.get(&id) {
                 None => return Err(RefStop::UnknownTemplateV9(id)),
                 Some(RefTpl::Plain(f)) => {
@@ -691,7 +690,6 @@ pub fn ref_ipfix_sets(b: &[u8], cache: &mut RefCache, q: &mut Q) -> Result<(Vec<
                     RefSet::UnknownTemplate(id)
                 }
             }
-            0..=255 => return nc("reserved set id"),
             _ => match cache.ipfix.get(&id) {
                 None => RefSet::UnknownTemplate(id),
                 Some(RefTpl::Plain(f)) => match ipfix_records(f, body, q)? {
